@@ -1,16 +1,24 @@
 #!/bin/bash
 # tools/try_mutant.sh <patch.diff> <property> [more properties...]
-# Applies a patch to /repo, runs the quick check of each property, undoes the patch.
-# Prints one line per property: DETECTED / missed / tool-trouble.
-P=$1; shift
-cd /repo || exit 2
-if ! git diff --quiet; then echo "/repo has uncommitted changes"; exit 2; fi
-if ! git apply --check "$P" 2>/dev/null; then echo "patch does not apply: $P"; exit 2; fi
-git apply "$P"
-trap 'git -C /repo checkout -- . >/dev/null 2>&1' EXIT
+# Applies a patch to a scratch worktree of /repo (so /repo itself is never left
+# modified), runs the quick check of each property against it (VERIF_REPO),
+# and removes the change. Prints one line per property: DETECTED / missed / TROUBLE.
+# USE_REPO=1 applies the patch to /repo itself instead (and undoes it afterwards).
+P=$(realpath "$1"); shift
+if [ -n "$USE_REPO" ]; then
+  R=/repo
+  git -C $R diff --quiet || { echo "/repo has uncommitted changes"; exit 2; }
+else
+  R=/tmp/wt/eval-$$
+  git -C /repo worktree add -q --detach $R HEAD || exit 2
+fi
+cleanup() { if [ -n "$USE_REPO" ]; then git -C /repo checkout -- . >/dev/null 2>&1; else git -C /repo worktree remove --force $R >/dev/null 2>&1; fi; }
+trap cleanup EXIT
+if ! git -C $R apply --check "$P" 2>/dev/null; then echo "patch does not apply: $P"; exit 2; fi
+git -C $R apply "$P"
 cd /verif
 for prop in "$@"; do
-  out=$(VERIF_MIN_S=${MIN_S:-3} VERIF_WALL_S=${WALL:-12} ./verif check $prop quick 2>&1); code=$?
+  out=$(VERIF_REPO=$R VERIF_MIN_S=${MIN_S:-3} VERIF_WALL_S=${WALL:-12} ./verif check $prop quick 2>&1); code=$?
   case $code in
     1) echo "DETECTED $prop: $(echo "$out" | grep -A1 '^VIOLATION' | grep '^  ' | head -3 | cut -c1-200 | tr '\n' '|')" ;;
     0) echo "missed   $prop: $(echo "$out" | grep '^verif:' | cut -c1-150)" ;;
